@@ -44,8 +44,11 @@ CLAIMED = {
          "untouched where the child is silent; no attribute constrained twice; inputs not written), port.RangesFromExpression (item i of the expression "
          "is exactly \"a\" or \"a-b\"), utils.StringSliceContains. Two genuine defects were found by these obligations and repaired with fix: commits "
          "(Satisfy's break-in-switch, range end parsed from the first field) - see known_findings.txt.",
-         "Not yet under contract in this check: Resources.Satisfy, makeTaskForMesosResources port arithmetic and the OFFERS handler (see DESIGN.md for "
-         "their status). strings.Split/Contains/TrimSpace, strconv.ParseUint are assumed deterministic functions (uninterpreted); mesos-go getters are "
+         "Resources.Satisfy compares cpu, memory, static ranges (subset) and the number of remaining ports; makeTaskForMesosResources takes every "
+         "dynamic port and the control port as the minimum of what is left of the offer's ports above the reserved cut, only when something is "
+         "left (a third genuine defect, Ranges.Min of an empty range, repaired), and subtracts it before the next one is taken. Not under contract: "
+         "subtraction of cpus, memory and static ports between tasks on one offer (needs a model of the mesos-go resource algebra) and the OFFERS "
+         "handler's bookkeeping. strings.Split/Contains/TrimSpace, strconv.ParseUint are assumed deterministic functions (uninterpreted); mesos-go getters are "
          "executed symbolically; precondition: operators are Equals and no attribute is constrained twice inside one list; slice parameters modelled at "
          "offset 0; append modelled as copy.",
          "DESIGN.md §6 C05"),
